@@ -31,7 +31,7 @@ SAN_PATTERNS = [
     (re.compile(r"runtime error: ([^\n]+)"), "ubsan"),
     (re.compile(r"AddressSanitizer:DEADLYSIGNAL"), "asan-signal"),
 ]
-FRAME_RE = re.compile(r"#\d+ (?:0x[0-9a-f]+ )?(?:in )?(\S+) (/\S+?):(\d+)")
+FRAME_RE = re.compile(r"#\d+ (?:0x[0-9a-f]+ )?(?:in )?([^\n]+?) (/[^\s:]+):(\d+)")
 
 
 class Result:
@@ -48,6 +48,16 @@ class Result:
         self.label = ""
 
 
+def sanitizer_excerpt(stderr, n=3500):
+    """the beginning of the first sanitizer report (that is where the faulting frames are)"""
+    for rx, _ in SAN_PATTERNS:
+        m = rx.search(stderr)
+        if m:
+            a = max(0, stderr.rfind("\n", 0, m.start()))
+            return stderr[a:a + n]
+    return stderr[-n:]
+
+
 def sanitizer_key(stderr):
     """Returns (kind, key) when the text contains a sanitizer report / uncaught exception."""
     for rx, kind in SAN_PATTERNS:
@@ -60,7 +70,7 @@ def sanitizer_key(stderr):
             for fm in FRAME_RE.finditer(stderr, m.start()):
                 path = fm.group(2)
                 if path.startswith(REPO + "/") and "/harness/" not in path:
-                    fn = re.sub(r"\(.*", "", fm.group(1))
+                    fn = re.sub(r"\(.*", "", fm.group(1)).split(" ")[-1]
                     frame = "%s@%s" % (fn, os.path.relpath(path, REPO))
                     break
             return kind, "san:%s:%s:%s" % (kind, what.replace(" ", "-"), frame)
@@ -163,7 +173,7 @@ class Check:
             return False
         kind, key = sanitizer_key(r.stderr_full)
         if key and (r.rc != 0 or kind in ("tsan",)):
-            self.violation(key, r.stderr_tail[-3000:], {"cmd": r.cmd, "env": r.env})
+            self.violation(key, sanitizer_excerpt(r.stderr_full), {"cmd": r.cmd, "env": r.env})
             return False
         if r.rc != 0 and not r.viols:
             if r.rc < 0:
